@@ -68,7 +68,9 @@ func view(rs *cstypes.RoundState) rsView {
 	if rs.Votes.Round() > maxR {
 		maxR = rs.Votes.Round()
 	}
-	for r := int32(0); r <= maxR+1; r++ {
+	// catch-up rounds admitted for peers may lie beyond Round()+1 and Round() itself depends on whether
+	// enterNewRound has run: list every round that holds votes, not a range derived from Round()
+	for r := int32(0); r <= maxR+64; r++ {
 		if pv := rs.Votes.Prevotes(r); pv != nil && !pv.BitArray().IsEmpty() { // an allocated but empty set carries no information
 			m, ok := pv.TwoThirdsMajority()
 			v.Votes = append(v.Votes, fmt.Sprintf("r%d prevotes %s maj23=%v:%X", r, pv.BitArray().String(), ok, m.Hash))
@@ -235,6 +237,9 @@ func runReplayCase(c *verdict.Ctx, idx int, tmp string) {
 					panicked = fmt.Sprint(x)
 				}
 			}()
+			if os.Getenv("VERIF_C15B_LOG") != "" {
+				rep.CS.SetLogger(log.NewTMLogger(log.NewSyncWriter(os.Stdout)))
+			}
 			rerr = rep.CS.VerifCatchupReplay(rep.CS.GetRoundState().Height)
 		}()
 		replayed := view(rep.CS.GetRoundState())
